@@ -25,12 +25,23 @@
   loop of rigid.py:449-454); BOTH snake equations for cups/caps of every multi-wire type
   (`snake_multiwire`), and their single-wire instances (`snake_l_single`, `snake_r_single`).
 
+  CALLING CONVENTIONS (Model/TensorNary.lean: the dispatch of tensor.py:177-205 through
+  monoidal.py:384-434 and cat.py:305-318, 709-715): the n-ary forms `f.then(g₁, …, g_k)` and
+  `f.tensor(g₁, …, g_k)` are, for every k ≥ 0, the iterated binary operations
+  (`thenN_eq_foldl`, `tensorN_eq_foldl`), hence every clause above transfers to them
+  (`tensorN_wf`, `tensorN_assoc`, `tensorN_kron3`: `f.tensor(g, h)` is the Kronecker product of
+  the three matrices); the fallback for a `tensor.Sum` argument returns the sum of the binary
+  results (`then_sum_fallback`, `tensor_sum_fallback`), a `monoidal.Sum` is refused
+  (`monoidal_sum_refused`), and the all-zero terms that `sum(terms, unit)` drops do not change
+  the value (`sum_drop_zero_entry`); `Tensor.map` is entrywise (`map_entry`).
+
   Nothing of the statement is left unproved for the model.  Outside the theorems: numpy itself
   (`tensordot`, `moveaxis`, `reshape`, `identity`, `conjugate` are modelled and validated by the
   `numpy-prims` correspondence stream), floating point (the theorems are over exact rings).
 -/
 import Proofs.TensorMatrix
 import Proofs.TensorSnakeMulti
+import Proofs.TensorNary
 import Proofs.GaussInt
 
 namespace DV.C08
@@ -248,6 +259,87 @@ theorem snake_multiwire (l : List Nat) (cup cap cup' cap' : Tensor R)
 
 end star
 
+/-! ### calling conventions: n-ary `then` / `tensor`, Sum fallback, map -/
+
+section nary
+variable {R : Type} [CommSemiring R] [DecidableEq R]
+
+/-- **`f.then(g₁, …, g_k)` is the iterated binary composition** `((f >> g₁) >> …) >> g_k`
+    (the first failing step raises; `f.then()` is `f`), for every number of arguments. -/
+theorem thenN_eq_foldl (f : Tensor R) (gs : List (Tensor R)) :
+    TVal.thenArgs (.t f) (gs.map .t)
+      = TVal.liftT (gs.foldlM (fun acc g => acc.then g) f) :=
+  TVal.thenArgs_tensors f gs
+
+/-- **`f.tensor(g₁, …, g_k)` is the iterated binary tensor** `((f @ g₁) @ …) @ g_k`
+    (`f.tensor()` is `f`), for every number of arguments. -/
+theorem tensorN_eq_foldl (f : Tensor R) (gs : List (Tensor R)) :
+    TVal.tensorArgs (.t f) (gs.map .t) = .ok (.t (gs.foldl Tensor.tensor f)) :=
+  TVal.tensorArgs_tensors f gs
+
+/-- The n-ary tensor of well-formed tensors is well-formed, of type
+    `dom f ⊗ dom g₁ ⊗ … → cod f ⊗ cod g₁ ⊗ …`. -/
+theorem tensorN_wf (f : Tensor R) (gs : List (Tensor R)) (hf : f.WF) (hgs : ∀ g ∈ gs, g.WF) :
+    ∃ t, TVal.tensorArgs (.t f) (gs.map .t) = .ok (.t t) ∧ t.WF ∧
+      t.dom = f.dom ++ (gs.map (·.dom)).flatten ∧ t.cod = f.cod ++ (gs.map (·.cod)).flatten :=
+  ⟨_, tensorN_eq_foldl f gs, Tensor.foldl_tensor_wf f gs hf hgs⟩
+
+/-- `f.tensor(g, g₁, …, g_k) = f @ g.tensor(g₁, …, g_k)`. -/
+theorem tensorN_assoc (f g t : Tensor R) (gs : List (Tensor R)) (hf : f.WF) (hg : g.WF)
+    (hgs : ∀ x ∈ gs, x.WF) (h : TVal.tensorArgs (.t g) (gs.map .t) = .ok (.t t)) :
+    TVal.tensorArgs (.t f) ((g :: gs).map .t) = .ok (.t (f.tensor t)) := by
+  rw [tensorN_eq_foldl] at h
+  cases h
+  rw [tensorN_eq_foldl, Tensor.foldl_tensor_assoc f g gs hf hg hgs]
+
+/-- **`f.tensor(g, h)` is the Kronecker product of the three matrices.** -/
+theorem tensorN_kron3 (f g h t : Tensor R) (hf : f.WF) (hg : g.WF) (hh : h.WF)
+    (ht : TVal.tensorArgs (.t f) [.t g, .t h] = .ok (.t t))
+    {r1 r2 r3 c1 c2 c3 : Nat}
+    (h1 : r1 < prod f.dom) (h2 : r2 < prod g.dom) (h3 : r3 < prod h.dom)
+    (k1 : c1 < prod f.cod) (k2 : c2 < prod g.cod) (k3 : c3 < prod h.cod) :
+    t.mat ((r1 * prod g.dom + r2) * prod h.dom + r3) ((c1 * prod g.cod + c2) * prod h.cod + c3)
+      = f.mat r1 c1 * g.mat r2 c2 * h.mat r3 c3 := by
+  have := tensorN_eq_foldl f [g, h]
+  simp only [List.map_cons, List.map_nil] at this
+  rw [this] at ht
+  cases ht
+  exact Tensor.tensor3_kron f g h hf hg hh h1 h2 h3 k1 k2 k3
+
+/-- The fallback of `Tensor.then` for a `tensor.Sum` of composable terms returns the
+    `monoidal.Sum` of the binary composites (without those that are all zero). -/
+theorem then_sum_fallback (f : Tensor R) (S : TSum R) (h : S.kind = .tensor)
+    (hS : ∀ g ∈ S.terms, g.dom = f.cod) :
+    TVal.then1 (.t f) (.s S) = .ok (.s ⟨.monoidal, f.dom, S.cod,
+      (S.terms.map (fun g => Tensor.thenCore f g)).filter (fun t => !t.isZero)⟩) :=
+  TVal.then1_tensor_sum f S h hS
+
+theorem tensor_sum_fallback (f : Tensor R) (S : TSum R) (h : S.kind = .tensor) :
+    TVal.tensor1 (.t f) (.s S) = .ok (.s ⟨.monoidal, f.dom ++ S.dom, f.cod ++ S.cod,
+      (S.terms.map (fun g => f.tensor g)).filter (fun t => !t.isZero)⟩) :=
+  TVal.tensor1_tensor_sum f S h
+
+/-- A `monoidal.Sum` — the class of what the fallback returns — is refused as an argument. -/
+theorem monoidal_sum_refused (f : Tensor R) (S : TSum R) (h : S.kind = .monoidal) :
+    TVal.then1 (.t f) (.s S) = .error .type ∧ TVal.tensor1 (.t f) (.s S) = .error .type :=
+  TVal.then1_monoidal_sum f S h
+
+/-- Dropping the all-zero terms (`cat.Sum.__add__`: `if other == 0: return self`) does not
+    change the entrywise value of a sum. -/
+theorem sum_drop_zero_entry (kind : SumKind) (dom cod : List Nat) (ts : List (Tensor R))
+    (i : List Nat) :
+    (((TSum.collect kind dom cod ts).terms.map (fun t => t.entry i)).sum : R)
+      = (ts.map (fun t => t.entry i)).sum :=
+  Tensor.collect_entry_sum kind dom cod ts i
+
+/-- `Tensor.map` applies the function to every entry and keeps the type. -/
+theorem map_entry (φ : R → R) (f : Tensor R) (hf : f.WF) {i : List Nat}
+    (hi : InRange (f.dom ++ f.cod) i) :
+    (f.map φ).WF ∧ (f.map φ).entry i = φ (f.entry i) :=
+  ⟨Tensor.map_wf φ f hf, Tensor.map_entry φ f hf hi⟩
+
+end nary
+
 /-! ### non-vacuity: concrete well-formed tensors over `GaussInt` with unequal dims, a scalar
     and a multi-wire type; the hypotheses of the theorems are met, and the model computes what
     the theorems say (finite checks by `decide`, support only). -/
@@ -272,5 +364,32 @@ example : f0.dagger.entry ([1] ++ [0]) = ⟨0, -1⟩ := by
   rw [dagger_entry f0 (by decide) (i := [0]) (k := [1]) (by simp [f0]) (by simp [f0])]
   decide
 example : ∃ cup : Tensor GaussInt, Tensor.cups [3] [3] = .ok cup := ⟨_, cups_single 3⟩
+
+/-! n-ary forms on `f0 : 2 → 3`, `g0 : 3 → 2 ⊗ 2`, the scalar `s0` -/
+def h0 : Tensor GaussInt := ⟨[2, 2], [2], ⟨[2, 2, 2],
+  #[⟨1, 0⟩, ⟨0, 0⟩, ⟨0, 0⟩, ⟨0, 1⟩, ⟨1, 1⟩, ⟨0, 0⟩, ⟨2, 0⟩, ⟨-1, 0⟩]⟩⟩
+example : h0.WF := by decide
+/-- `f0.then(g0, h0)` composes (the hypotheses of `thenN_eq_foldl` are met non-trivially) … -/
+example : ∃ t, TVal.thenArgs (.t f0) [.t g0, .t h0] = .ok (.t t) ∧ t.dom = [2] ∧ t.cod = [2] := by
+  refine ⟨thenCore (thenCore f0 g0) h0, ?_, rfl, rfl⟩
+  have := thenN_eq_foldl f0 [g0, h0]
+  simp only [List.map_cons, List.map_nil] at this
+  rw [this]
+  rfl
+/-- … `f0.then(h0)` is refused, also in the middle of an argument list … -/
+example : TVal.thenArgs (.t f0) [.t g0, .t f0, .t h0] = .error .axiom := by decide
+/-- … `f0.then()` and `f0.tensor()` are `f0` … -/
+example : TVal.thenArgs (.t f0) [] = .ok (.t f0) ∧ TVal.tensorArgs (.t f0) [] = .ok (.t f0) :=
+  ⟨rfl, rfl⟩
+/-- … and an entry of `f0.tensor(g0, h0)` is the product of the three entries (`tensorN_kron3`
+    at row ((1, 2), 3), column ((2, 1), 0)): 3 · (1+i) · (-1). -/
+example : ([g0, h0].foldl Tensor.tensor f0).mat ((1 * 3 + 2) * 4 + 3) ((2 * 4 + 1) * 2 + 1)
+    = f0.mat 1 2 * g0.mat 2 1 * h0.mat 3 1 :=
+  Tensor.tensor3_kron f0 g0 h0 (by decide) (by decide) (by decide) (by decide) (by decide)
+    (by decide) (by decide) (by decide) (by decide)
+example : f0.mat 1 2 * g0.mat 2 1 * h0.mat 3 1 = (⟨-3, 0⟩ : GaussInt) := by decide
+/-- the Sum fallback on a `tensor.Sum` with an all-zero term: the term is dropped -/
+example : TVal.then1 (.t f0) (.s ⟨.tensor, [3], [2, 2], [g0, Tensor.zeros [3] [2, 2]]⟩)
+    = .ok (.s ⟨.monoidal, [2], [2, 2], [thenCore f0 g0]⟩) := by decide +kernel
 
 end DV.C08
